@@ -232,7 +232,11 @@ def build(desc, ident, stubs=None):
             for (aa, rv) in table:
                 if len(aa) == len(a) and all(x == y for x, y in zip(aa, a)):
                     return rv
-            return table[0][1] if table else 0
+            # outside the model's (partial) table any function is a legitimate interpretation: a generic one
+            try:
+                return sum((7 * x * x + 3 * x + 1) for x in a)
+            except Exception:
+                return 0
         ufns[fname] = f
     return args, ufns
 
@@ -282,8 +286,13 @@ def run(ident, desc, hooks=None):
             hooks(ordered, ufns, desc)
         # abstract callees given by text that read a callable out of the config: install the table-driven stub
         for txt, spec in con.callees.items():
-            if spec.get('fn') and spec['fn'] in ufns:
-                _install_callable(ordered, txt, ufns[spec['fn']])
+            if spec.get('fn'):
+                if spec['fn'] not in ufns:
+                    ufns[spec['fn']] = lambda *a: sum((7 * x * x + 3 * x + 1) for x in a)
+                if txt in ordered:
+                    ordered[txt] = ufns[spec['fn']]
+                else:
+                    _install_callable(ordered, txt, ufns[spec['fn']])
         out = rtcheck.check_call(ident, ordered, ufns=ufns)
         return {'reproduced': out.status == 'violated', 'status': out.status, 'failed': out.failed,
                 'detail': out.detail, 'args': _short(ordered), 'result': _short(out.result),
